@@ -229,6 +229,9 @@ inductive Op (α : Type) (ns nc : Nat) where
   | solve (P : Prob α ns nc) (dt : Nat) (x0 : Vec α ns) (ubar : Nat → Vec α nc)
   | setClock (v : Nat)
   | forward (n : Nat)
+  /-- a call that raised somewhere inside (solver, user system, argument check) and was caught by the caller: no
+  result, the clock is left wherever the exception found it -/
+  | failed (clkAfter : Nat)
 
 /-- run a history from clock `clk`; returns the results of the solves in order and the final clock -/
 def runHistory {ns nc : Nat} (sol : Solver α ns nc) (S : Sys α ns nc) : List (Op α ns nc) → Nat → List (Out α ns nc) × Nat
@@ -239,6 +242,21 @@ def runHistory {ns nc : Nat} (sol : Solver α ns nc) (S : Sys α ns nc) : List (
     (r.1 :: q.1, q.2)
   | .setClock v :: rest, _ => runHistory sol S rest v
   | .forward n :: rest, clk => runHistory sol S rest (clk + n)
+  | .failed c :: rest, _ => runHistory sol S rest c
+
+/-- two objects (an original and its deep copy: own clock each) used interleaved; `true` = an operation on the
+first, `false` = on the second. Returns the results of the solves of each. -/
+def runTwo {ns nc : Nat} (sol : Solver α ns nc) (S : Sys α ns nc) :
+    List (Bool × Op α ns nc) → Nat → Nat → List (Out α ns nc) × List (Out α ns nc)
+  | [], _, _ => ([], [])
+  | (true, op) :: rest, c1, c2 =>
+    let r := runHistory sol S [op] c1
+    let q := runTwo sol S rest r.2 c2
+    (r.1 ++ q.1, q.2)
+  | (false, op) :: rest, c1, c2 =>
+    let r := runHistory sol S [op] c2
+    let q := runTwo sol S rest c1 r.2
+    (q.1, r.1 ++ q.2)
 
 /-- list of inputs as `u_traj` -/
 def ofList {n : Nat} (l : List (Vec α n)) : Nat → Vec α n := nth l
